@@ -7339,9 +7339,8 @@ class FrameAssignBLoc(FrameAssign):
             # if we produced any invalid entries, cannot select them
             invalid_found = (value == FILL_VALUE_DEFAULT).values
             if invalid_found.any():
-                if not key.flags.writeable:
-                    key = key.copy() # mutate a copy
-                key[invalid_found] = False
+                # NOTE: the normalized key can be the caller's own array: never write to it
+                key = key & ~invalid_found
 
             blocks = self.container._blocks.extract_bloc_assign_by_blocks(key, values)
 
